@@ -116,9 +116,7 @@ def run_property(prop, tier, repo=None, write=True):
         code = 1
         vdir = os.path.join(evidence_dir, "violations")
         if os.environ.get("NFSTATIC_NOWRITE"):
-            import tempfile
-
-            vdir = tempfile.mkdtemp(prefix="nfv-viol-")
+            vdir = os.path.join(program.repo, ".violations")
         os.makedirs(vdir, exist_ok=True)
         for n, f in enumerate(violations):
             path = os.path.join(vdir, "%s-%s-%d.json" % (prop, f.rule, n))
